@@ -1,6 +1,7 @@
 #!/bin/bash
-# Runs every seeded change against the quick check of its property (patch applied to /repo,
-# then restored) and records the detecting harnesses in seeded/<id>/meta.json.
+# Runs every seeded change against the quick check of its property (tools_seed_run.sh: patch
+# applied to a scratch git worktree of /repo's HEAD, never to /repo itself) and records the
+# detecting harnesses in seeded/<id>/meta.json and seeded/MATRIX.txt.
 cd /verif
 out=/verif/seeded/MATRIX.txt
 : > $out.tmp
